@@ -394,10 +394,10 @@ func envPrelude() {
 
 // Same-named types: Go lets two functions declare local types with one name; both print as
 // "main.item" / "main.clause", and nothing but their name is the same.
-func sameNamePlainItem(v string) any { type item string; return item(v) }
-func sameNameAliasItem(s stackage.Stack) any { type item stackage.Stack; return item(s) }
+func sameNamePlainItem(v string) any           { type item string; return item(v) }
+func sameNameAliasItem(s stackage.Stack) any   { type item stackage.Stack; return item(s) }
 func sameNameAliasClause(s stackage.Stack) any { type clause stackage.Stack; return clause(s) }
-func sameNamePlainClause(v string) any { type clause string; return clause(v) }
+func sameNamePlainClause(v string) any         { type clause string; return clause(v) }
 
 // sameNamedTypes: a plain type seen first and an alias type of the same name afterwards, and the other
 // way round with another name. It returns what went wrong ("" if nothing did).
